@@ -5,6 +5,7 @@ import PercevalModel.Model.C11Heur
 import PercevalModel.Model.C11Regroup
 import PercevalModel.Model.C11Deep
 import PercevalModel.Model.C11Chain
+import PercevalModel.Model.C11Mixed
 
 open Lean PM PM.Proto PM.C11
 
@@ -433,6 +434,86 @@ def doChain (j : Json) : Except String Json := do
   let ci := chainCmp steps c
   return Json.mkObj [("U", matJson (ci.UV GQ.I)), ("flat", flatJson ci)]
 
+/-! mixed histories (`Model/C11Mixed.lean`): a phase travels as (angle, unit phase `e^{iφ}` as the component computes it) -/
+
+abbrev PZ := ℚ × GQ
+
+instance : PhaseAlg PZ where
+  add a b := (a.1 + b.1, a.2 * b.2)
+  canDrop a := PhaseAlg.canDrop a.1
+
+instance : PhaseNeg PZ where
+  neg a := (-a.1, star a.2)
+
+def fkOf (j : Json) : Except String (ℕ × FK PZ GQ) := do
+  let r0 ← natOf j "r0"
+  if let .ok p := j.getObjVal? "perm" then
+    let σ ← natList p
+    if !isPerm σ || σ.isEmpty then throw "AssertionError"
+    return (r0, .perm σ.length σ)
+  if let .ok φ := j.getObjVal? "phi" then
+    return (r0, .ps (← ratOfJson φ, ← gqOf j "z"))
+  match ← leafOf (← j.getObjVal? "leaf") with
+  | some l => return (r0, .leaf l)
+  | none => throw "bad leaf"
+
+/-- `["simp", display, dropAll]`: every drop test whose phase sum is a multiple of 2π (within the tolerance) is decided
+the same way -/
+def mstepOf (n : ℕ) (j : Json) : Except String MStep :=
+  match j with
+  | Json.arr #[Json.str "inv", v, h] => do pure (.inv (← v.getBool?) (← h.getBool?))
+  | Json.arr #[Json.str "copy"] => pure .copy
+  | Json.arr #[Json.str "flat"] => pure .flat
+  | Json.arr #[Json.str "simp", d, a] => do pure (.simp (← d.getBool?) (List.replicate n (← a.getBool?)))
+  | Json.arr #[Json.str "decomp", mg] => do pure (.decomp (← mg.getBool?))
+  | Json.arr #[Json.str "regroup"] => pure .regroup
+  | _ => throw "bad step"
+
+/-- the regrouping step with the product materialised (`MS.regroup` multiplies closures): the same block
+`u[min_r:max_r, min_r:max_r]` of the same product (`mixed_tree_matrix`) -/
+def regroupFast (m : ℕ) (st : MS PZ GQ) : MS PZ GQ :=
+  if st.isEmpty then []
+  else
+    let cs := st.cmps Prod.snd
+    let mm := pendingRange GQ.I m cs
+    let full := (Cmp.circ m (itsOfList cs)).UV GQ.I
+    let M : Matrix (Fin m) (Fin m) GQ :=
+      fun i j => (full.toArray.getD i.val (Vector.replicate _ 0)).toArray.getD j.val 0
+    let w := mm.2 - mm.1
+    let B : MatV GQ w w := MatV.ofMatrix (block mm.1 w M)
+    [(mm.1, .leaf (.un w B.toMatrix))]
+
+def mstepRun (m : ℕ) (s : MStep) (st : MS PZ GQ) : MS PZ GQ :=
+  match s with
+  | .regroup => regroupFast m st
+  | s => s.apply GQ.I Prod.snd m st
+
+def fkJson (p : ℕ × FK PZ GQ) : Json :=
+  let base : List (String × Json) := [("r0", toJson p.1), ("w", toJson p.2.size)]
+  match p.2 with
+  | .perm _ σ => Json.mkObj (base ++ [("k", Json.str "perm"), ("perm", toJson σ)])
+  | .ps φ => Json.mkObj (base ++ [("k", Json.str "ps"), ("phi", ratToJson φ.1)])
+  | .leaf _ => Json.mkObj (base ++ [("k", Json.str "leaf")])
+
+def msJson (m : ℕ) (st : MS PZ GQ) : Json :=
+  Json.mkObj [("state", Json.arr (st.map fkJson).toArray),
+    ("U", matJson ((Cmp.circ m (itsOfList (st.cmps Prod.snd))).UV GQ.I))]
+
+/-- `{"op": "mchain", "m": m, "state": [...], "steps": [...]}`: the flattened view and the matrix after every step of
+the mixed history (entry 0: the initial state) -/
+def doMChain (j : Json) : Except String Json := do
+  let m ← natOf j "m"
+  if m = 0 then throw "AssertionError"
+  let st0 ← (← arrOf j "state").toList.mapM fkOf
+  if st0.any (fun p => p.1 + p.2.size > m ∨ p.2.size = 0) then throw "AssertionError"
+  let mut st := st0
+  let mut out : Array Json := #[msJson m st]
+  for sj in (← arrOf j "steps") do
+    let s ← mstepOf (st.length) sj
+    st := mstepRun m s st
+    out := out.push (msJson m st)
+  return Json.mkObj [("trace", Json.arr out)]
+
 def handle (j : Json) : Json :=
   match (do
     let op ← strOf j "op"
@@ -446,6 +527,7 @@ def handle (j : Json) : Json :=
     | "heur" => doHeur j
     | "deepcopy" => doDeepCopy j
     | "chain" => doChain j
+    | "mchain" => doMChain j
     | _ => throw "unknown op" : Except String Json) with
   | .ok r => r
   | .error e => errJson e
